@@ -111,6 +111,10 @@ def make_case(rnd, wd, shape, tmpdir_tokens_with_one_iteration=True, dated_first
     iterations = rnd.choice([1, 2, 2, 3])
     if dated_first_line is not None and iterations == 1:
         iterations = 2
+    # a large text output that is plain ASCII for its first 64 KiB and has other characters after that
+    big = hint is not None and hint % 7 == 3 and shape in (['o1'], ['o1', 'o2'])
+    if big and hint % 2 == 1 and dated_first_line is None:
+        iterations = 1
     tokens = [socket.gethostname(), getpass.getuser(), wd]
     if iterations > 1 or tmpdir_tokens_with_one_iteration:
         tokens += ['{TMPDIR}', '{TMPDIR}/scratch.dat']
@@ -124,6 +128,9 @@ def make_case(rnd, wd, shape, tmpdir_tokens_with_one_iteration=True, dated_first
         files[names['o1']] = {'kind': 'text', 'text': text_of(rnd, rnd.randint(1, 4), token_pool=tokens)}
     if 'o1' in shape and rnd.random() < 0.25:
         files[names['o1']]['old_mtime'] = True
+    if big:
+        files[names['o1']]['text'] = ''.join('line %06d of an ordinary plain log, nothing special here\n' % k_ for k_ in range(rnd.choice([1300, 2600]))) \
+            + 'r\u00e9sum\u00e9 \u4e2d\u6587 done\n'
     if 'o4' in shape:
         # two text outputs whose names differ only in characters that are not legal in an identifier
         a, b = rnd.choice([('out-1.txt', 'out_1.txt'), ('a b.csv', 'a_b.csv'), ('report.1.log', 'report-1.log')])
@@ -257,16 +264,41 @@ def run_gentest(case, timeout=180):
     return p.returncode, p.stdout, p.stderr
 
 
+def earlier_generation(case, script='test_Job.py', timeout=180):
+    """An earlier, separate gentest run in the same working directory, for another command, under a script name that differs
+    from the later one in letter case only; what it left (script, ref/<Name>/...) is there before the generation under test."""
+    env = common.child_env({'HOME': case['wd'] + '_home'})
+    gtmp = os.path.join(case['wd'] + '_tmp')
+    os.makedirs(gtmp, exist_ok=True)
+    os.makedirs(case['wd'] + '_home', exist_ok=True)
+    env['TMPDIR'] = gtmp
+    with open(os.path.join(case['wd'], 'pre.py'), 'w') as f:
+        f.write("print('first line of the earlier command')\nprint('second line')\n")
+    driver = ('import sys, json\nfrom tdda.referencetest.gentest import gentest_wrapper\n'
+              'gentest_wrapper(json.loads(sys.argv[1]))\n')
+    p = subprocess.run([common.PY, '-W', 'ignore', '-c', driver, json.dumps(['-n', '2', '%s pre.py' % common.PY, script])],
+                       cwd=case['wd'], env=env, stdout=subprocess.PIPE, stderr=subprocess.PIPE, text=True, timeout=timeout)
+    return p.returncode
+
+
+def run_command_by_hand(case, timeout=120):
+    """What a user does between changing the command and running the tests: runs the command once, in the working directory."""
+    env = common.child_env({'HOME': case['wd'] + '_home'})
+    env['TMPDIR'] = os.path.join(case['wd'] + '_tmp')
+    subprocess.run('%s cmd.py%s' % (common.PY, case.get('cmd_args', '')), shell=True, cwd=case['wd'], env=env,
+                   stdout=subprocess.DEVNULL, stderr=subprocess.DEVNULL, timeout=timeout)
+
+
 RE_TEST = re.compile(r'^(test_\w+) \(.*\) \.\.\. (ok|FAIL|ERROR|skipped.*)$', re.M)
 
 
-def run_script(case, timeout=180):
+def run_script(case, timeout=180, script='test_job.py'):
     """Runs the generated test script; returns {test name: 'pass'|'fail'|'error'} and raw output."""
     env = common.child_env({'HOME': os.environ.get('HOME', '/root')})
     env['TMPDIR'] = os.path.join(case['wd'] + '_tmp')
     env['HOME'] = case['wd'] + '_home'
     env.pop('TMPDIR_SET_BY_GENTEST', None)
-    p = subprocess.run([common.PY, '-W', 'ignore', 'test_job.py', '-v'], cwd=case['wd'], env=env, stdout=subprocess.PIPE,
+    p = subprocess.run([common.PY, '-W', 'ignore', script, '-v'], cwd=case['wd'], env=env, stdout=subprocess.PIPE,
                        stderr=subprocess.PIPE, text=True, timeout=timeout)
     out = p.stderr + '\n' + p.stdout
     res = {}
